@@ -21,7 +21,11 @@ def run_one(m):
     try:
         copy = os.path.join(tmp, "repo")
         shutil.copytree(REPO, copy, ignore=shutil.ignore_patterns("target", ".git", "*.gif", "*.png", "*.jpg"))
-        for e in m["edits"]:
+        if m.get("patch"):
+            r = subprocess.run(["patch", "-p1", "-s", "-d", copy, "-i", os.path.join(VERIF, m["patch"])], capture_output=True, text=True)
+            if r.returncode != 0:
+                return m["id"], "skipped", "patch no longer applies", {}
+        for e in m.get("edits", []):
             p = os.path.join(copy, e["file"])
             s = open(p).read()
             if s.count(e["old"]) < 1:
